@@ -106,6 +106,21 @@ def gen_cases(tier, rng):
                         w = ['-c', vals[0]] + vals[1:]
                     cases.append('H:f=0 arg:c,cont:%s0:%s %s kind:container-overflow'
                                  % (kind, '/'.join(opts), A.argv_tok(w)))
+    # sub-group arguments (outside the handler model, judged by the sanitizers): the main handler passes the words
+    # behind the sub-group key to another handler and advances the argument iterator itself - the sub-group key as
+    # the last word, followed by known / unknown / fuzzed words, inside a group of short flags, given twice
+    base = 'H:f=0 arg:v:b0:init=0 arg:n,number:i0: S:o,output:f=0 arg:f,file:s0: arg:q:b1:init=0 '
+    sublines = [['-o'], ['--output'], ['-v', '-o'], ['-vo'], ['-o', '-f', 'x'], ['-o', '-q'], ['-o', '-q', '-v'],
+                ['-o', '-f'], ['-o', '-o'], ['-vo', '-qf', 'x'], ['-n', '5', '-o'], ['-o', '-n', '5'], ['-o', '--file=a', '-v'],
+                ['-o', '-x'], ['-o', 'free'], ['-o', '--'], ['-o', '-'], ['--out'], ['-o', '-f', 'x', '-o', '-q']]
+    for w in sublines:
+        cases.append(base + A.argv_tok(w) + ' kind:sub-group')
+    for _ in range(60 if tier == 'quick' else 600):
+        w = [rng.choice(['-o', '--output', '-vo', '-v', '-q', '-f', 'x', '-n', '5', '--', '-', '-oq', '-of', '--file=y'])
+             for _ in range(rng.range(1, 5))]
+        if rng.chance(1, 3):
+            w.insert(rng.below(len(w) + 1), _fuzz_word(rng))
+        cases.append(base + A.argv_tok(w) + ' kind:sub-group')
     n += len(cases)
     guard = 0
     while len(cases) < n and guard < n * 20:
